@@ -85,6 +85,43 @@ def analysis_case(rec, seedt, nmax):
             api.check_result(r1, data, desc, rec, f"scatter-single[{desc['backend']}]")
 
 
+def cancelling_case(rec, seedt):
+    """Segments whose cross-products cancel EXACTLY in the mean while they scatter: channel 1
+    repeats with the segment shift, channel 2 repeats with alternating sign, the number of
+    segments is even.  The averaged cross-product is exactly 0, its population variance is not."""
+    from speckit.analysis import SpectrumAnalyzer
+    rng = gen.rng_for(*seedt)
+    L = int(rng.choice([16, 50, 128, 301]))
+    K = 2 * int(rng.integers(1, 7))
+    N = K * L
+    p, q = rng.standard_normal(L), rng.standard_normal(L)
+    auto = bool(rng.random() < 0.25)
+    x = np.tile(p, K)
+    y = np.tile(np.concatenate([q, -q]), K // 2)
+    order = int(rng.choice([-1, 0, 1, 2]))
+    backend = str(rng.choice(["numba", "numpy"]))
+    win = {"kind": "hann", "name": "hann"} if rng.random() < 0.5 else \
+        {"kind": "kaiser", "psll": float(rng.choice([60, 120, 200]))}
+    fs = float(rng.choice([1.0, 48.0]))
+    desc = {"kind": "cancelling", "seed": list(seedt), "L": L, "K": K, "order": order,
+            "backend": backend, "win": win, "cross": not auto, "N": N, "fs": fs}
+    rec.case(desc, nontrivial=True)
+    data = y if auto else np.vstack([x, y])
+    kw = dict(order=order, backend=backend, olap=0.0)
+    kw.update(api.win_args(win))
+    fq = fs * float(rng.uniform(0.05, 0.45))
+    r = api.attempt(rec, lambda: SpectrumAnalyzer(data, fs, **kw).compute_single_bin(fq, L=L))
+    if r is None:
+        return
+    if int(r.K[0]) != K or not np.array_equal(np.asarray(r.D[0]), np.arange(K) * L):
+        rec.blocked("segmentation is not the K back-to-back segments this case needs")
+        return
+    rec.count("exactly_cancelling_means")
+    resultcheck.c11_identities(r, rec, fs, f"[cancelling segments, {backend}, order {order}] ")
+    d = dict(desc, sched="lpsd", Lmin=1, Jdes=10, Kdes=2, bmin=1.0, olap=0.0, rec="cancelling")
+    api.check_result(r, data, d, rec, f"scatter-single[{backend}]")
+
+
 def mc_cell(rec, params):
     from speckit.analysis import SpectrumAnalyzer
     mode, g2, n, R = params["mode"], params["g2"], params["n"], params["R"]
@@ -130,12 +167,16 @@ def run_shard(params, rec):
             rec.note(f"time budget reached after {i}")
             break
         analysis_case(rec, [params["seed"], params["shard"], i], params["nmax"])
+        if i % 4 == 0:
+            cancelling_case(rec, [params["seed"], params["shard"], "cancel", i])
 
 
 def replay(case, rec):
     if case["kind"] == "mc":
         mc_cell(rec, {"mode": case["mode"], "g2": case["g2"], "n": case["n"], "R": case["R"],
                       "seed": case["seed"][0], "shard": case["seed"][1]})
+    elif case["kind"] == "cancelling":
+        cancelling_case(rec, case["seed"])
     else:
         analysis_case(rec, case["seed"], case.get("nmax", 8000))
 
